@@ -3,6 +3,7 @@ package props
 import (
 	"fmt"
 	"path/filepath"
+	"sort"
 	"strings"
 	"time"
 
@@ -112,20 +113,44 @@ func checkHistory(c *rt.CaseResult, ops []conc.Op, evs []conc.Event, p program, 
 	case "illegal":
 		an := attributeSpurious(ops, evs)
 		if len(an) > 0 {
-			var rest []conc.Op
-			sig := ""
-			for i, o := range ops {
-				if s, ok := an[i]; ok {
-					sig = s
-					continue
-				}
-				rest = append(rest, o)
+			// try the smallest explanation first: remove only the anomalous reads of one class
+			classes := map[string]bool{}
+			for _, s := range an {
+				classes[s] = true
 			}
-			if check(rest) == "ok" {
-				replay["anomalous_ops"] = an
-				c.Violate(sig, "history is not linearizable; it becomes linearizable when the reads that raced with the cleaner between version lookup and content open are removed", replay)
-				c.Count("histories_illegal_attributed_to_known_window", 1)
-				return
+			var order [][]string
+			for cl := range classes {
+				order = append(order, []string{cl})
+			}
+			sort.Slice(order, func(i, j int) bool { return order[i][0] < order[j][0] })
+			if len(classes) > 1 {
+				var all []string
+				for cl := range classes {
+					all = append(all, cl)
+				}
+				sort.Strings(all)
+				order = append(order, all)
+			}
+			for _, set := range order {
+				in := map[string]bool{}
+				for _, cl := range set {
+					in[cl] = true
+				}
+				var rest []conc.Op
+				for i, o := range ops {
+					if s, ok := an[i]; ok && in[s] {
+						continue
+					}
+					rest = append(rest, o)
+				}
+				if check(rest) == "ok" {
+					replay["anomalous_ops"] = an
+					for _, cl := range set {
+						c.Violate(cl, "history is not linearizable; it becomes linearizable when the reads that raced with the cleaner between version lookup and content lookup/open are removed", replay)
+					}
+					c.Count("histories_illegal_attributed_to_known_window", 1)
+					return
+				}
 			}
 		}
 		kind := "register-model"
